@@ -1,9 +1,11 @@
 #!/bin/sh
-# tools/seedall.sh <PROP> : validate every candidate of /tmp/agents/out/<PROP>/<k>/ and print one line each
+# tools/seedall.sh <PROP> [--keep] : validate every candidate of $SEED_BASE/<PROP>/<k>/ (default /tmp/agents/out) and print one line each;
+# kept seeds are named <PROP>-<k> (or <PROP>-$SEED_TAG<k> when SEED_TAG is set)
 P=$1
+BASE=${SEED_BASE:-/tmp/agents/out}
 for k in 1 2 3; do
-  [ -f /tmp/agents/out/$P/$k/patch.diff ] || continue
-  /venv/bin/python /verif/tools/seedcheck.py /tmp/agents/out/$P/$k $P $2 $( [ -n "$2" ] && echo $P-$k ) 2>&1 | /venv/bin/python -c "
+  [ -f $BASE/$P/$k/patch.diff ] || continue
+  /venv/bin/python /verif/tools/seedcheck.py $BASE/$P/$k $P $2 $( [ -n "$2" ] && echo $P-${SEED_TAG}$k ) 2>&1 | /venv/bin/python -c "
 import json,sys
 try:
     r=json.load(sys.stdin)
